@@ -793,6 +793,13 @@ func (ipfs *Connector) RepoGC(ctx context.Context) (*api.RepoGC, error) {
 	}
 	defer res.Body.Close()
 
+	// a refusal (non-200 with an error object) is not a collected key
+	_, err = checkResponse("repo/gc", res)
+	if err != nil {
+		logger.Error(err)
+		return nil, err
+	}
+
 	dec := json.NewDecoder(res.Body)
 	repoGC := &api.RepoGC{
 		Keys: []api.IPFSRepoGC{},
